@@ -32,6 +32,7 @@ type simCfg struct {
 	Init      uint64   `json:"init"`
 	ValChange int      `json:"valchange"` // 0 none, 1 powers change each height, 2 keys and powers change
 	Local     int      `json:"local"`     // validator index the local state machine signs with (-1: none)
+	F         uint32   `json:"f,omitempty"` // C06: candidate set of validators that may vote in the restricted phase
 }
 
 // VT is one vote target inside a vote message.
@@ -178,6 +179,11 @@ type sim struct {
 	c04NHR         [4]uint64
 	c04View        [2]uint64
 	altUsed        bool
+	fOnly          bool   // C06: after the first vote op only members of fMask sign, macro rounds are skipped
+	fPhase         bool
+	fMask          uint32 // sanitized: power(fMask) < 1/3 of every set's total
+	fStart         [2]uint64
+	fSigned        map[string]string
 }
 
 // ownership says which liveness clauses the running test function owns; in
